@@ -192,7 +192,7 @@ fn do_call(st: &mut TaskState, sh: &Shared, call: &Call) {
             match std::str::from_utf8(bytes) {
                 Err(e) => {
                     kernel::count("c20.non_utf8");
-                    let r = ffi::wirefilter_parse_filter(scheme, bytes.as_ptr().cast(), bytes.len());
+                    let r = seams::with_caller_buffer(bytes, |p, n| ffi::wirefilter_parse_filter(scheme, p.cast(), n));
                     if r.status != Status::Error || r.ast.is_some() {
                         mismatch(st, fname, "status", format!("non-UTF-8 input gave {:?}", r.status));
                     }
@@ -204,7 +204,8 @@ fn do_call(st: &mut TaskState, sh: &Shared, call: &Call) {
                         kernel::count("c20.skipped_reference_panic");
                         return;
                     };
-                    let r = ffi::wirefilter_parse_filter(scheme, bytes.as_ptr().cast(), bytes.len());
+                    // the caller's text buffer is overwritten as soon as the call returns
+                    let r = seams::with_caller_buffer(bytes, |p, n| ffi::wirefilter_parse_filter(scheme, p.cast(), n));
                     match reference {
                         Ok(ast) => {
                             kernel::count("c20.parse_ok");
@@ -265,11 +266,7 @@ fn do_call(st: &mut TaskState, sh: &Shared, call: &Call) {
             let list = matches!(call, Call::UsesList(_));
             let fname = if list { "wirefilter_filter_uses_list" } else { "wirefilter_filter_uses" };
             let Some(ast) = &st.ast else { return };
-            let r = if list {
-                ffi::wirefilter_filter_uses_list(ast, name.as_ptr().cast(), name.len())
-            } else {
-                ffi::wirefilter_filter_uses(ast, name.as_ptr().cast(), name.len())
-            };
+            let r = seams::with_caller_buffer(name, |p, n| if list { ffi::wirefilter_filter_uses_list(ast, p.cast(), n) } else { ffi::wirefilter_filter_uses(ast, p.cast(), n) });
             match name_str(name) {
                 Err(e) => {
                     if r.status != Status::Error || r.used {
@@ -321,8 +318,10 @@ fn do_call(st: &mut TaskState, sh: &Shared, call: &Call) {
                 Call::SetBool(n, _) => ("wirefilter_add_bool_value_to_execution_context", n),
                 _ => unreachable!(),
             };
-            let np = name.as_ptr().cast();
-            let nl = name.len();
+            // the field name lives in a caller buffer that is overwritten after the call
+            let name_buf: Box<[u8]> = name.clone().into_boxed_slice();
+            let np = name_buf.as_ptr().cast();
+            let nl = name_buf.len();
             let got = match call {
                 Call::SetInt(_, x) => ffi::wirefilter_add_int_value_to_execution_context(&mut st.ctx, np, nl, *x),
                 Call::SetBytes(_, b) => {
@@ -336,6 +335,13 @@ fn do_call(st: &mut TaskState, sh: &Shared, call: &Call) {
                 Call::SetBool(_, b) => ffi::wirefilter_add_bool_value_to_execution_context(&mut st.ctx, np, nl, *b),
                 _ => unreachable!(),
             };
+            {
+                let mut nb = name_buf;
+                for b in nb.iter_mut() {
+                    *b = b'#';
+                }
+                seams::harness(|h| h.arena.push(nb));
+            }
             match name_str(name) {
                 Err(e) => {
                     if got {
